@@ -405,8 +405,6 @@ class PreTranslator(ASTTranslator):
     def postSlice(translator, node):
         if node.lower is None and node.upper is None and node.step is None:
             node.external = node.constant = True
-    def postStarred(translator, node):
-        node.external = True
     def postConstant(translator, node):
         node.external = node.constant = True
     def postNum(translator, node):  # Python <= 3.7
@@ -416,9 +414,9 @@ class PreTranslator(ASTTranslator):
     def postBytes(translator, node):  # Python <= 3.7
         node.external = node.constant = True
     def postDict(translator, node):
-        node.external = True
+        if not node.keys: node.external = True  # a display with items is external only if all its items are
     def postList(translator, node):
-        node.external = True
+        if not node.elts: node.external = True
     def postkeyword(translator, node):
         node.constant = node.value.constant
     def postIndex(translator, node):  # Python <= 3.7
